@@ -343,6 +343,8 @@ class Gen:
 					op = '*' if not self.on('fmt', 0.2) else '%'
 				elif kind == 'int' and name == 'term':
 					op = rng.choice(['*', '*', '%', '%', '/'] if rng.random() < 0.08 else ['*', '*', '%'])
+				elif kind == 'float' and name == 'term':
+					op = rng.choice(['*', '/', '%', '%'])
 				else:
 					op = rng.choice(ops)
 				chosen_ops.append(op)
@@ -436,17 +438,30 @@ def real_result(evaluator: Any, node: Any) -> str:
 		return show_error(e)
 
 
-def type_of_outcome(reflections: Any, decl: Any) -> str:
-	"""What `Reflections.type_of` raises for this declaration ('-' = nothing). The evaluator asks it before following a reference
-	(evaluator.py:161, 172); an exception that is not an application error reaches the caller as Errors.Fatal (procedure.py:180)."""
-	from rogw.tranp.errors import Errors
-	try:
-		reflections.type_of(decl)
-		return '-'
-	except Errors.Error as e:
-		return show_error(e).replace('Errors.Fatal:', 'Errors.Fatal.')
-	except Exception as e:  # noqa: BLE001
-		return f'Errors.Fatal.{type(e).__name__}'
+class RecordingReflections:
+	"""The evaluator's collaborator, observed: forwards to the real Reflections and records what `type_of` raised per node.
+	(The evaluator asks it before following a reference — evaluator.py:161, 172 — and static type inference is not C17's subject:
+	the outcome is an input of the model, attached to the reference node.)"""
+
+	def __init__(self, inner: Any) -> None:
+		self._inner = inner
+		self.outcomes: dict[str, set[str]] = {}
+
+	def type_of(self, node: Any) -> Any:
+		from rogw.tranp.errors import Errors
+		try:
+			r = self._inner.type_of(node)
+		except Errors.Error as e:
+			self.outcomes.setdefault(node.full_path, set()).add(show_error(e).replace('Errors.Fatal:', 'Errors.Fatal.'))
+			raise
+		except Exception as e:  # noqa: BLE001 - reaches the caller as Errors.Fatal (procedure.py:180)
+			self.outcomes.setdefault(node.full_path, set()).add(f'Errors.Fatal.{type(e).__name__}')
+			raise
+		self.outcomes.setdefault(node.full_path, set()).add('-')
+		return r
+
+	def __getattr__(self, name: str) -> Any:
+		return getattr(self._inner, name)
 
 
 class _Raiser:
@@ -529,9 +544,15 @@ class Unencodable(Exception):
 	pass
 
 
-def encode(node: Any, enum: str, own_names: set[str]) -> str:
+def encode(node: Any, enum: str, own_names: set[str], outcomes: dict[str, set[str]]) -> str:
 	import rogw.tranp.syntax.node.definition as defs
 	out: list[str] = []
+
+	def ty(site: Any) -> str:
+		got = outcomes.get(site.full_path, {'-'})
+		if len(got) != 1:
+			raise Unencodable(f'type_of gave different outcomes at one node: {sorted(got)}')
+		return next(iter(got))
 
 	def go(n: Any) -> None:
 		cls = type(n).__name__
@@ -572,12 +593,12 @@ def encode(node: Any, enum: str, own_names: set[str]) -> str:
 			r = n.receiver
 			if n.prop.tokens == 'value' and isinstance(r, defs.Relay) and isinstance(r.receiver, defs.Var):
 				e = r.receiver.tokens
-				out.append(f'r:{hx(e)}:{hx(f"{e}.{r.prop.tokens}")}')
+				out.append(f'r:{hx(e)}:{hx(f"{e}.{r.prop.tokens}")}:{ty(r)}')
 			else:
 				raise Unencodable('relay other than Enum.Member.value')
 		elif isinstance(n, defs.Var):
 			t = n.tokens
-			out.append(f'v:{hx(f"{enum}.{t}" if t in own_names else t)}')
+			out.append(f'v:{hx(f"{enum}.{t}" if t in own_names else t)}:{ty(n)}')
 		else:
 			raise Unencodable(cls)
 
@@ -679,29 +700,39 @@ class Case:
 		self.env_line = ''
 		self.oracle: dict[str, str] = {}
 		self.error: str | None = None
+		self.unstable: list[tuple[str, str, str]] = []
 
 
-def observe(app: Any, case: Case) -> None:
-	"""Run the real evaluator and CPython on every member; build the `env` line from the real node tree."""
+def observe(app: Any, case: Case, rng: random.Random | None = None) -> None:
+	"""Run the real evaluator (ONE instance for the whole module, every member twice: in source order, then shuffled) and CPython
+	on every member; build the `env` line from the real node tree."""
 	import rogw.tranp.syntax.node.definition as defs
+	from rogw.tranp.implements.transpiler.evaluator import LiteralEvaluator
 	from rogw.tranp.semantics.reflections import Reflections
-	from rogw.tranp.transpiler.types import Evaluator
 	mod = app.module(case.source)
-	evaluator = app.resolve(Evaluator)
-	reflections = app.resolve(Reflections)
-	enc: list[str] = []
+	reflections = RecordingReflections(app.resolve(Reflections))
+	evaluator = LiteralEvaluator(reflections)
 	by_name = {c.domain_name: c for c in mod.entrypoint.statements if isinstance(c, defs.Enum)}
+	nodes: dict[str, Any] = {}
 	for ms in case.enums:
 		cls = by_name[ms[0].enum]
-		own = {m.name for m in ms}
-		decls = {v.tokens: v for v in reversed(cls.vars)}
 		for m in ms:
-			node = cls.var_value(m.name)
-			case.real[m.key] = real_result(evaluator, node)
-			enc.append(f'm:{hx(m.key)}:{type_of_outcome(reflections, decls[m.name])} {encode(node, m.enum, own)}')
+			nodes[m.key] = cls.var_value(m.name)
+			case.real[m.key] = real_result(evaluator, nodes[m.key])
+	order = list(case.members)
+	(rng or random.Random(len(case.source))).shuffle(order)
+	for m in order:
+		again = real_result(evaluator, nodes[m.key])
+		if again != case.real[m.key]:
+			case.unstable.append((m.key, case.real[m.key], again))
+	case.py = python_results(case.enums)
+	enc: list[str] = []
+	for ms in case.enums:
+		own = {m.name for m in ms}
+		for m in ms:
+			enc.append(f'm:{hx(m.key)} {encode(nodes[m.key], m.enum, own, reflections.outcomes)}')
 	known = KNOWN_FUNCS + [ms[0].enum for ms in case.enums]
 	case.env_line = f"env\t{','.join(hx(k) for k in known)}\t{' '.join(enc)}"
-	case.py = python_results(case.enums)
 
 
 def fill_oracles(cases: list[Case], max_rounds: int = 80) -> int:
@@ -756,9 +787,11 @@ def make_cases(ctx: Ctx, app: Any, name: str, n: int, regions: frozenset[str], c
 		cases.append(Case(gen_module(rng, regions, depth, 1 + i % 3, 4 + i % 5), f'{name}#{i}'))
 	for c in cases:
 		try:
-			observe(app, c)
+			observe(app, c, rng)
 		except Unencodable as e:
 			c.error = f'unencodable: {e}'
+		except Exception as e:  # noqa: BLE001 - the real code rejected a generated module: the search reports it
+			c.error = f'observe: {exc_enum(e)}'
 	return cases
 
 
@@ -900,21 +933,29 @@ def search_real(ctx: Ctx, app: Any, seen_cases: list[Case]) -> SearchResult:
 		regions = regions_in if i % 3 else regions_all
 		c = Case(gen_module(rng, regions, depth, 1 + i % 3, 4 + i % 6), f'search#{i}')
 		try:
-			observe(app, c)
+			observe(app, c, rng)
 		except Unencodable:
 			# the encoding is irrelevant here; only the observations are needed
 			pass
 		except Exception as e:  # noqa: BLE001
-			res.findings.append(Finding(key='module-rejected', what=f'generated module not accepted by tranp: {exc_enum(e)}', replay={'source': c.source}))
-			continue
+			c.error = f'observe: {exc_enum(e)}'
 		cases.append(c)
 	hist: dict[str, int] = {}
 	texts = set()
 	for c in cases:
+		if c.error is not None and c.error.startswith('observe:'):
+			if sum(1 for f in res.findings if f.key == 'module-rejected') < 3:
+				res.findings.append(Finding(key='module-rejected', what=f'tranp does not load a generated Enum module of literal expressions: {c.error}', replay={'source': c.source}))
+			continue
 		if not c.real:
 			continue
 		if not c.py:
 			c.py = python_results(c.enums)
+		for key, first, again in c.unstable[:1]:
+			hist['finding:history-dependent'] = hist.get('finding:history-dependent', 0) + 1
+			if sum(1 for f in res.findings if f.key == 'history-dependent') < 3:
+				res.findings.append(Finding(key='history-dependent', what=f'{key}: the same evaluator instance gives {first} on the first exec() and {again} on a later one',
+					replay={'source': c.source, 'member': key, 'first': first, 'again': again}))
 		for m in c.members:
 			res.cases += 1
 			texts.add(m.text)
